@@ -26,6 +26,7 @@ use std::time::Duration;
 
 mod fanout;
 mod keepalive;
+mod reqlife;
 mod reqrep;
 mod server;
 mod shutdown;
@@ -411,6 +412,7 @@ fn main() {
             Some("tls") => server::cmd_tls(args.clone()).await,
             Some("fanout") => fanout::cmd_fanout(args.clone()).await,
             Some("shutdown") => shutdown::cmd_shutdown(args.clone()).await,
+            Some("reqlife") => reqlife::cmd_reqlife(args.clone()).await,
             Some("keepalive") => keepalive::cmd_keepalive(args.clone()).await,
             _ => Err(anyhow!("usage: e2e pubsub|reqrep|server|stall|tls|keepalive --out T ...")),
         }
